@@ -20,6 +20,7 @@ import (
 	"strconv"
 	"strings"
 	"time"
+	"unicode"
 
 	"golang.org/x/tools/go/ssa"
 )
@@ -487,8 +488,32 @@ func tryReplayFile(P *Program, v *Verifier, ob *Obligation) *ReplayResult {
 			break
 		}
 	}
+	// The solver's models were all spurious: typically the path goes through an uninterpreted function of a string
+	// (a library parser), whose values the solver invents. The first string parameter is then pinned, in turn, to
+	// each text of a small fixed pool (numerals with leading zeros, signs, prefixes, separators, non-ASCII) and
+	// the query is solved again; a model that exists for such a text is replayed like any other.
+	if rr != nil && strings.HasPrefix(rr.Note, "model-spurious") && ob.Fn != nil {
+		key := funcKey(ob.Fn)
+		for _, p := range ob.Fn.Params {
+			if b, ok := p.Type().Underlying().(*types.Basic); !ok || b.Kind() != types.String {
+				continue
+			}
+			n := smtName(fmt.Sprintf("p$%s@%s", p.Name(), sanitize(key)))
+			for _, cand := range replayStringPool {
+				extra := fmt.Sprintf("(assert (= %s %s))\n", n, StrLit(cand).String())
+				r2, _ := tryReplayOnce(P, v, ob, extra)
+				if r2 != nil && r2.Confirmed {
+					r2.Note += " (input taken from the fixed pool of texts after the solver's own models proved spurious)"
+					return r2
+				}
+			}
+			break
+		}
+	}
 	return rr
 }
+
+var replayStringPool = []string{"08", "010", "0x10", "0b11", "0o17", "1_0", "+1", "-1", "00", "007", " 1", "1 ", "1e3", "a", "Z", "é", "♯", "１"}
 
 // smallInputAsserts bounds the integer leaves of the parameters (and the lengths of their slices) to small values.
 func smallInputAsserts(ob *Obligation) string {
@@ -946,7 +971,13 @@ func (v *Verifier) evalClauseConcrete(fn *ssa.Function, c *Contract, ci int, val
 	if ghostReads != g0 {
 		return false, "the clause reads ghost state (a history variable), which a run of the real code does not produce: not re-evaluated"
 	}
-	sc := &Script{Prelude: loadPreludeCached, Asserts: append(hyp, Not(goal))}
+	// uninterpreted specification functions: the solver would be free to pick their values, so a clause that
+	// mentions one is decided only when every application has ground arguments and a meaning computable here
+	facts, why := concreteSpecFacts(append(append([]*Term{}, hyp...), goal))
+	if why != "" {
+		return false, "the clause mentions " + why + ", which has no value in a run of the real code: not re-evaluated"
+	}
+	sc := &Script{Prelude: loadPreludeCached, Asserts: append(append(hyp, facts...), Not(goal))}
 	text := sc.Render("", false)
 	tmp, _ := os.CreateTemp("", "govc-concrete-*.smt2")
 	tmp.WriteString(text)
@@ -963,3 +994,58 @@ func (v *Verifier) evalClauseConcrete(fn *ssa.Function, c *Contract, ci int, val
 }
 
 var loadPreludeCached string
+
+// concreteSpecFacts gives the applications of uninterpreted (declare-fun) specification functions occurring in ts
+// their real values: dec is the decimal rendering, parse10_* is strconv.ParseUint(s, 10, 64), is_space is
+// unicode.IsSpace. Any other uninterpreted function, or a non-ground application, is reported in why.
+func concreteSpecFacts(ts []*Term) (facts []*Term, why string) {
+	seen := map[*Term]bool{}
+	var rec func(x *Term)
+	rec = func(x *Term) {
+		if seen[x] || why != "" {
+			return
+		}
+		seen[x] = true
+		for _, a := range x.Args {
+			rec(a)
+		}
+		if x.Op != "app" || !preludeIsDeclared(x.Str) {
+			return
+		}
+		bad := func() { why = "the uninterpreted specification function " + x.Str }
+		for _, a := range x.Args {
+			if !a.IsLit() && !(a.Op == "str") {
+				bad()
+				return
+			}
+		}
+		switch x.Str {
+		case "dec":
+			if len(x.Args) == 1 && x.Args[0].IsInt() && x.Args[0].Int.Sign() >= 0 {
+				facts = append(facts, Eq(x, StrLit(x.Args[0].Int.String())))
+				return
+			}
+		case "parse10_ok", "parse10_val":
+			if len(x.Args) == 1 && x.Args[0].Op == "str" {
+				u, err := strconv.ParseUint(x.Args[0].Str, 10, 64)
+				if x.Str == "parse10_ok" {
+					facts = append(facts, Eq(x, BoolLit(err == nil)))
+				} else if err == nil {
+					facts = append(facts, Eq(x, IntBig(newBigU(u))))
+				}
+				return
+			}
+		case "is_space":
+			if len(x.Args) == 1 && x.Args[0].IsInt() {
+				r := x.Args[0].Int64()
+				facts = append(facts, Eq(x, BoolLit(r >= 0 && unicode.IsSpace(rune(r)))))
+				return
+			}
+		}
+		bad()
+	}
+	for _, t := range ts {
+		rec(t)
+	}
+	return facts, why
+}
